@@ -127,12 +127,39 @@ def run(tier, seed):
         except (OutOfModel, RecursionError):
             ctx.count("generated_discarded"); continue
         scen.append((libs, L, forms, F))
+    import os, shutil, tempfile
+    root = tempfile.mkdtemp(prefix="c13-", dir=core.TMP)
     for leg in legs:
         jobs = []
         for i, (libs, L, forms, F) in enumerate(scen):
-            spec = {"stdlib": False, "libs": [{"name": [x.name for x in l[1]], "src": t} for l, t in zip(L, libs)]}
-            jobs.append(diff.job_for(F, "s%d" % i, interp=spec))
+            mode = i % 3
+            if mode == 0:
+                # all libraries registered before the program starts
+                spec = {"stdlib": False, "libs": [{"name": [x.name for x in l[1]], "src": t} for l, t in zip(L, libs)]}
+                jobs.append(diff.job_for(F, "s%d" % i, interp=spec))
+            elif mode == 1:
+                # libraries as files next to the program (loaded lazily, in the order the imports reach them)
+                d = os.path.join(root, "%s-%d" % (leg, i))
+                for l, t in zip(L, libs):
+                    parts = [x.name for x in l[1]]
+                    os.makedirs(os.path.join(d, *parts[:-1]), exist_ok=True)
+                    open(os.path.join(d, *parts[:-1], parts[-1] + ".sld"), "w").write(t)
+                jobs.append(diff.job_for(F, "s%d" % i, interp={"stdlib": False, "progdir": d}))
+            else:
+                # an unrelated library is registered through the API between the forms of the program
+                spec = {"stdlib": False, "libs": [{"name": [x.name for x in l[1]], "src": t} for l, t in zip(L, libs)]}
+                job = diff.job_for(F, "s%d" % i, interp=spec)
+                extra = {"register": {"name": ["late", "lib%d" % i], "src": "(define-library (late lib%d) (export late-v) (begin (define late-v 1)))" % i}}
+                pos = 1 + (i // 3) % max(1, len(F) - 1)
+                job["steps"].insert(pos, extra)
+                job["_extra_at"] = pos
+                jobs.append(job)
         recs = core.run_jobs(jobs, leg, timeout=600 if tier == "quick" else 3000, tag="c13")
+        for job, rec in zip(jobs, recs):
+            if "_extra_at" in job and rec and "steps" in rec:
+                x = rec["steps"].pop(job["_extra_at"])
+                if "ok" not in x:
+                    ctx.violation({"what": "registering an unrelated library failed", "kind": "register", "observed": x}, {"job": job["id"]})
         for (libs, L, forms, F), rec in zip(scen, recs):
             ctx.evaluations += 1
             if rec is None or "steps" not in rec:
@@ -156,6 +183,8 @@ def run(tier, seed):
                 ctx.violation({"what": "library scenario disagrees with the reference module system", "kind": "modules", "why": detail["why"][:300], "form": detail["form"][:200],
                                "leg": leg, "dedupe": detail["why"][:40]}, {"libs": libs, "forms": forms, "detail": detail, "leg": leg})
         ctx.legs.append(leg)
+    shutil.rmtree(root, ignore_errors=True)
+    ctx.observed["modes"] = "registered sources / files beside the program / a late registration through the API, one third each"
     ctx.sample({"libs": scen[0][0], "program": scen[0][2]})
     ctx.sample({"libs": scen[1][0], "program": scen[1][2]})
     return ctx.finish(min_evals=200, min_nontrivial=50)
